@@ -345,3 +345,5 @@ pub fn run_main(
         writeln!(out, "end").unwrap();
     }
 }
+
+pub mod e2e;
